@@ -296,11 +296,9 @@ def update (s : InvarSt α) : InvarSt α × Option Err :=
   let d2 := if Scalar.geb s.inv d1.hi then d1.setUpperBound s.inv false else d1
   let base : DD α := { s.top with dist := m, bounds := [], dom := d2, n := m.length }
   let subBounds := if sd.n == 0 then [] else sd.bounds.take (sd.n - 1)
-  if m.length == sd.n then
-    -- the invariant is (equivalent to) a class value of the nested distribution (repaired):
-    -- the bounds are `dist_->getBound(i)`, `i + 1 < n`
-    if subBounds.length + 1 == sd.n || sd.n == 0 then ({ s with top := { base with bounds := subBounds } }, none)
-    else ({ s with top := { base with bounds := subBounds } }, some .index)
+  if m.length != sd.n + 1 then
+    -- class values were merged by the tolerance of the map (repaired): midpoints of the keys
+    ({ s with top := { base with bounds := midBounds (TMap.keys m) } }, none)
   else
   match sd.cats with
   | [] => ({ s with top := base }, some .ub)      -- `dist_->getCategory(0)` of an empty map
